@@ -118,6 +118,20 @@ pub fn run(rep: &mut Report, thorough: bool) {
                 3 => format!("libsyn{k}.so.3.34.2rc5"),
                 _ => format!("libsyn{k}.so"),
             };
+            // file name and SONAME related the way real libraries are: libX.so.N.M.P on disk with
+            // SONAME libX.so.N (the name extends the SONAME), the two equal, or the SONAME longer
+            let mut name = name;
+            if spec.soname.is_some() {
+                // (unique per file, so that two files of one target never share a path)
+                let so = format!("libsyn{k}n{}.so.{}", rng.below(1000), rng.below(9));
+                spec.soname = Some(so.clone());
+                match rng.below(6) {
+                    0 | 1 => name = format!("{so}.{}.{}", rng.below(30), rng.below(9)),
+                    2 => name = so,
+                    3 => spec.soname = Some(format!("{name}.{}", rng.below(9))),
+                    _ => {}
+                }
+            }
             let pad = if rng.chance(1, 5) { PAGE * rng.range(1, 3) } else { 0 };
             let delete = rng.chance(1, 5);
             let under_dev = rng.chance(1, 5) && std::fs::create_dir_all(&shm_dir.0).is_ok();
